@@ -39,6 +39,10 @@ func (r *timerRoles) tmPickWorker(cands []*ssa.Function) *ssa.Function {
 	if len(res) == 1 {
 		return res[0]
 	}
+	if len(res) > 1 {
+		// several goroutines pop the heap: the pool worker is the one that listens to the wake channel (v_timer_g.go)
+		return r.tmPickPoolWorker(res)
+	}
 	return nil
 }
 
